@@ -658,6 +658,7 @@ func init() {
 				}
 				c.Distinct("all", c.ID)
 				w.ShapeInvarianceOK(c, c.ID, []File{{"c.yaml", cfg.YAML()}}, true)
+				w.NameInvariance(c, c.ID, cfg)
 			})
 			// (6) how the registered function names its package: alias, alias/sub-path, quoted, unquoted, paths with dots and dashes
 			w.Case("function-import-forms", func(c *C) {
@@ -691,6 +692,27 @@ func init() {
 				}
 				outs, err := w.RunBehaviour([]*BCase{{ID: c.ID, Cfg: cfg, Sessions: []BSession{{Ops: append(ops, op("counters", ""))}}}})
 				behaviourOracle(c, outs, err)
+			})
+			// (7) values that print alike and differ in type, in ONE configuration, every value under a name that sorts early
+			// and under one that sorts late (so every pair of lookalikes meets in both orders), each also behind a
+			// single-chunk reference: each parameter keeps ITS value and type whatever else the configuration holds
+			w.Case("lookalike-values-in-one-configuration", func(c *C) {
+				vals := []any{30, 30.0, "30", "30.0", 2, 2.0, "2", true, "true", false, "false", nil, "null", "~", "", 0, 0.0, "0", "0.0", -0.0, 1000, 1e3, "1e3", "1000",
+					uint64(18446744073709551615), 18446744073709551615.0, "18446744073709551615", 1.5, "1.5", "nil", "<nil>", " 30", "30 ", "%%30", "int(30)", "float64(30)", `"30"`}
+				cfg := &Cfg{Meta: stdMeta()}
+				var ops []ProbeOp
+				k := len(vals)
+				for i, v := range vals {
+					early, late := fmt.Sprintf("a%02d", i), fmt.Sprintf("z%02d", k-1-i)
+					cfg.Params = append(cfg.Params, Param{early, v}, Param{late, v}, Param{"r" + early, "%" + early + "%"}, Param{"r" + late, "%" + late + "%"}, Param{"m" + early, "<%" + early + "%|%" + late + "%>"})
+					cfg.Services = append(cfg.Services, Service{Name: "s" + early, Constructor: P("pk.New"), Args: []any{"%" + early + "%", "%r" + late + "%"}, Fields: []KV{{"F1", "%" + late + "%"}}})
+					ops = append(ops, op("param", early), op("param", late), op("param", "r"+early), op("param", "r"+late), op("param", "m"+early), op("get", "s"+early))
+					c.Distinct("all", fmt.Sprintf("lookalike:%T:%v", v, v))
+					c.Distinct("nontrivial", fmt.Sprintf("lookalike:%T:%v", v, v))
+				}
+				outs, err := w.RunBehaviour([]*BCase{{ID: c.ID, Cfg: cfg, Sessions: []BSession{{Ops: ops}}}})
+				behaviourOracle(c, outs, err)
+				w.NameInvariance(c, c.ID, cfg)
 			})
 			// (4) what the environment holds: envInt is strconv.Atoi of the variable, env is the variable verbatim
 			w.Case("environment-values", func(c *C) {
